@@ -56,6 +56,9 @@ fn mk_c11() -> Vec<Box<dyn Monitor>> {
 fn mk_c14() -> Vec<Box<dyn Monitor>> {
     vec![Box::new(mon::c14::C14)]
 }
+fn mk_c16() -> Vec<Box<dyn Monitor>> {
+    vec![Box::new(mon::c16::C16)]
+}
 fn mk_c06() -> Vec<Box<dyn Monitor>> {
     vec![Box::new(mon::swaps::C06)]
 }
@@ -189,6 +192,17 @@ fn specs() -> Vec<CheckSpec> {
         extra: None,
     },
     CheckSpec {
+        id: "C16",
+        profile: Profile::T22,
+        mk: mk_c16,
+        level: "exploration",
+        rule: "pools over Token-2022 mints with TransferFeeConfig (basis points 0/1/30/100/500/5000/9999/10000, maximum fee 0/10/1e6/1e12/u64::MAX, mixed with fee-less Token-2022 and plain SPL mints), tiny epochs so that the fee schedule switches while a mint-authority actor issues SetTransferFee; the real Token-2022 processor moves the tokens and the fee actually withheld is read from the destination account's withheld delta; for every landed swap_v2 / two_hop_swap_v2 / increase_v2 / decrease_v2 / by-token-amounts: included = excluded + fee with the SPL fee of the sent amount, the vault receives at least the curve amount (trace / exact oracle), the amount requested from the user is the smallest whose fee-reduced value covers the need and never above the stated maximum, the vault sends exactly the curve amount and thresholds / token minima are compared with what the user receives, events (Traded; Pinocchio liquidity events via hook H2) report the amounts moved; a case is one (instruction, direction, mode, fee class of each mint, partial fill) tuple",
+        quick_runs: 400,
+        thorough_secs: 600,
+        assumptions: COMMON_ASSUMPTIONS,
+        extra: None,
+    },
+    CheckSpec {
         id: "C05",
         profile: Profile::Core,
         mk: mk_c05,
@@ -243,7 +257,8 @@ fn main() {
             let spec = specs.iter().find(|s| s.id == id).unwrap_or_else(|| usage());
             let thorough = args.iter().any(|a| a == "--thorough");
             let t0 = std::time::Instant::now();
-            let r = run::run_one(seed, spec.profile, thorough, spec.mk, true);
+            let profile = arg_val(&args, "--profile").and_then(|p| Profile::parse(&p)).unwrap_or(spec.profile);
+            let r = run::run_one(seed, profile, thorough, spec.mk, true);
             println!(
                 "seed {} events {} ok {} fail {} evals {} distinct {} hash {:016x} in {:?}",
                 seed,
